@@ -15,6 +15,31 @@ CH_NOTE = ("Trusted: CPython, CrossHair 0.0.110's models of int/bool/str primiti
            "replayed under /venv/bin/python without CrossHair before it is reported.")
 
 CLAIMS = {
+    'C01': dict(
+        engine='CH',
+        technique='solver-driven path exploration of the real scanner pipeline with CrossHair/z3 (finite-choice '
+                  'inputs fixed by solver-decided forks, exhaustion certified by the solver); differential oracle '
+                  '(valid -> documented attribute; invalid -> warning + attribute equals the run without the '
+                  'annotation); counterexamples replayed concretely',
+        category='model_checking',
+        text='One annotated parameter or return value of each of 31 C type kinds (numbers, enum, strings, records, '
+             'objects, boxed, gpointer, bare containers, callbacks incl. GDestroyNotify/GAsyncReadyCallback, aliases, '
+             'unresolvable and foreign types, char**, by-value struct, GError**) in functions, methods, callback '
+             'typedefs and virtual methods, as return value, first or last parameter: (transfer none|full|container|'
+             'floating) x direction x (array); direction (in, out, out caller-/callee-allocates, inout) x nullable x '
+             'optional x not nullable x skip; (array) with length=sibling / fixed-size / zero-terminated[=0|1] x '
+             '(element-type) x direction incl. the length parameter following the array direction; (element-type X '
+             '[Y]) and (type X); (scope) x (closure P) x (destroy P) on callback and non-callback parameters in three '
+             'sibling orders; free-form attributes. Each combination is pushed through Transformer.parse -> '
+             'MainTransformer -> IntrospectablePass -> GIRWriter, twice where the differential baseline is needed. '
+             'CrossHair "Confirmed over all paths" per partition (quick ~95k paths, thorough the full products).',
+        design_ref='DESIGN.md section 4, C01',
+        note=CH_NOTE + ' Finite-choice inputs are fixed by solver-decided binary search (vlib/sym.py) and the '
+             'pipeline then runs without opcode interception for that path. One annotated value per callable; '
+             'signals/properties, nested element-type grammar and free attribute text are outside the bounds. Where '
+             'the statement does not decide validity (enum, va_list, by-value struct, wrong-typed closure/destroy '
+             'target, conflicting direction on the length parameter, explicit scope beside a destroy-notify) nothing '
+             'is asserted.'),
     'C02': dict(
         engine='CH',
         technique='solver-driven path exploration of the real scanner pipeline with CrossHair/z3 (finite-choice '
